@@ -113,7 +113,9 @@ def theorem_names_in(pid, path):
         if m and ns and ns[-1] == m.group(1):
             ns.pop()
             continue
-        m = re.match(r"\s*(?:@\[[^\]]*\]\s*)?(?:protected\s+|private\s+)?theorem\s+(\S+)", line)
+        if re.match(r"\s*(?:@\[[^\]]*\]\s*)?private\s+theorem", line):
+            continue
+        m = re.match(r"\s*(?:@\[[^\]]*\]\s*)?(?:protected\s+)?theorem\s+(\S+)", line)
         if m:
             n = m.group(1)
             names.append(n if (n.startswith(pid + ".") or not ns) else ".".join(ns + [n]))
@@ -151,10 +153,11 @@ def audit(pid, names):
             f.write("#print axioms %s\n" % n)
     rc, log = sh(["lake", "env", "lean", path], cwd=LEAN, timeout=900)
     res = {n: None for n in names}
+    plain = {n.replace("\u00ab", "").replace("\u00bb", ""): n for n in names}
     for m in re.finditer(r"'([^']+)' depends on axioms: \[([^\]]*)\]", log):
-        res[m.group(1)] = [a.strip() for a in m.group(2).split(",") if a.strip()]
+        res[plain.get(m.group(1), m.group(1))] = [a.strip() for a in m.group(2).split(",") if a.strip()]
     for m in re.finditer(r"'([^']+)' does not depend on any axioms", log):
-        res[m.group(1)] = []
+        res[plain.get(m.group(1), m.group(1))] = []
     return res, log
 
 
